@@ -75,6 +75,24 @@ class Reshape(Case):
         s.dom = 'bits'
 
 
+class SelfMap(Case):
+    """compound assignment whose right-hand side is a map over the destination's own storage: a op= flatten(a) etc."""
+    def __init__(s, T, shape, kind, op):
+        sz = prod(shape); tt = f'Tensor<{T},{dims(*shape)}>'
+        a = Buf('a', T, sz, 'inout')
+        if kind == 'flatten': rhs = 'flatten(A)'
+        elif kind == 'reshape': rhs = f'reshape<{dims(*shape)}>(A)'
+        else: rhs = f'TensorMap<{T},{dims(*shape)}>(A.data())'
+        k = f'{tt} A(a); A {op} {rhs}; ' + copy_out('A', 'a', sz)
+        r = f'for(int q=0;q<{sz};++q) {{ {T} t_ = a[q]; ' + apply_op(T, op, 'a[q]', 't_') + ' }'
+        def pre(V):
+            if T in IT and op == '/=':
+                w = CT[T][1]; return [c for i in range(sz) for c in (V.el('a', i) != 0, V.el('a', i) != mask(-1, w))]
+            return []
+        Case.__init__(s, f'selfmap_{SHORT[T]}_{"x".join(map(str, shape))}_{kind}_{OPN[op]}', [a], k, r, desc=f'A {op} {rhs} on {tt}', pre=pre)
+        s.dom = 'uf' if T in FT else 'bits'; s.uf_int = T in IT
+
+
 class Layout(Case):
     def __init__(s, T, shape, kind):
         sz = prod(shape); n = len(shape); tt = f'Tensor<{T},{dims(*shape)}>'
@@ -113,6 +131,8 @@ def cases(tier, cfg, seed):
             for kind in ('tocol', 'torow', 'round', 'ctor_col', 'ctor_row', 'ctor_arr', 'ctor_arr_col'):
                 out.append(Layout(T, shape, kind))
         for shape in [(5,), (2, 3), (2, 2, 3), (2, 2, 2, 2)]: out.append(Layout(T, shape, 'ctor_il'))
+        for op in ('+=', '-=', '*=', '/='):
+            out.append(SelfMap(T, (9,), 'flatten', op)); out.append(SelfMap(T, (3, 4), 'reshape', op)); out.append(SelfMap(T, (2, 5), 'map', op))
     return out
 
 
